@@ -71,9 +71,9 @@ func cmdCheck(args []string) int {
 	seed, _ := strconv.Atoi(os.Getenv("VERIF_SEED"))
 	start := time.Now()
 	cc := &checkCtx{prop: *prop, tier: *tier, repo: *repo, verif: *verif, seed: seed}
-	cc.timeout = 30 * time.Second
+	cc.timeout = 90 * time.Second
 	if *tier == "thorough" {
-		cc.timeout = 120 * time.Second
+		cc.timeout = 240 * time.Second
 		coverPaths = 1 << 20
 	}
 	cc.cs = loadContracts(*repo, *verif)
@@ -205,7 +205,16 @@ func cmdCheck(args []string) int {
 			fatalf("a lemma of %s calls %s, whose contract is not tagged with this property", *prop, k)
 		}
 	}
-	SolveAll(all, cc.timeout, *tier == "thorough", 10)
+	// obligations recorded as known findings are expected to stay undischarged: a short time-out is enough to see
+	// whether they now discharge (a repaired defect) - they must not dominate the running time of every check
+	for _, o := range all {
+		for _, k := range known.Findings {
+			if k.Property == *prop && strings.HasPrefix(o.Name, k.Obligation) {
+				o.Quick = true
+			}
+		}
+	}
+	SolveAll(all, cc.timeout, *tier == "thorough", 8)
 	solveS := time.Since(start).Seconds() - loadS - genS
 	if *dumpDir != "" {
 		os.MkdirAll(*dumpDir, 0o755)
